@@ -171,3 +171,36 @@ Proof. split; vm_compute; repeat split. Qed.
 
 Example C08_witness : percentile99 [] = None /\ meanZ [] = None.
 Proof. split; reflexivity. Qed.
+
+(* ------------------------------------------------------------------------------------------ *)
+(* priority in the closed loop (Proofs/PriorityRunFacts.v)                                      *)
+(* ------------------------------------------------------------------------------------------ *)
+From Eudoxia Require Import Proofs.PriorityRunFacts.
+
+(* priority, any container mode (partial): a run that stops, stops with an error from inside a container
+   tick or the lifecycle state machine -- no command of the scheduler is refused by the executor's checks
+   and no assertion of the scheduler fires *)
+Theorem C08_priority_run_errors_partial : forall C l np cpu ram arrivals sf logs er,
+  cf_static C = mk_static l -> dags_wf l -> (0 <= cpu)%Z -> (0 <= ram)%Q ->
+  sim_run C APriority 0%Z (init_sim C np cpu ram) arrivals = (sf, logs, Some er) ->
+  inner_err er.
+Proof. exact priority_run_errors_partial. Qed.
+Print Assumptions C08_priority_run_errors_partial.
+
+(* priority with single-operator containers: the closed loop never raises, and never suspends *)
+Theorem C08_priority_single_runs_to_end : forall C l np cpu ram arrivals,
+  cf_static C = mk_static l -> dags_wf l ->
+  (forall op c, cf_script C op c <> []) -> cf_multi C = false ->
+  (0 <= cpu)%Z -> (0 <= ram)%Q -> NoDup (concat arrivals) ->
+  exists sf logs,
+    sim_run C APriority 0%Z (init_sim C np cpu ram) arrivals = (sf, logs, None) /\
+    length logs = length arrivals /\ Forall (fun lg => tl_susp lg = []) logs.
+Proof. exact priority_single_runs_to_end. Qed.
+Print Assumptions C08_priority_single_runs_to_end.
+
+Example C08_priority_witness :
+  exists sf logs,
+    sim_run (RunExamples.exC false) APriority 0%Z (init_sim (RunExamples.exC false) 1 2%Z 2%Q)
+            RunExamples.arr = (sf, logs, None) /\
+    length logs = 8 /\ Forall (fun lg => tl_susp lg = []) logs.
+Proof. exact RunExamples.ex_single_total. Qed.
